@@ -189,3 +189,46 @@ Proof.
   rewrite E. apply (pred_roundtrip_g O Q). split; [destruct id; [contradiction | reflexivity] | exact Hok].
 Qed.
 Print Assumptions C05_predicate_zone_seconds_partial.
+
+(* ---- the time laws PROVED for a Go-faithful codec.  TimeCodec.v: fmt_rfc3339nano / parse_rfc3339nano follow
+   Time.Format(RFC3339Nano) and time.Parse(RFC3339Nano, .) (4-digit year, 1- or 2-digit hour, fraction after '.' or ',' with
+   any number of digits of which nine count, zone Z or +-hh:mm with hh <= 24 and mm <= 60, day checked against the month,
+   no leap second); compared with Go on boundary / random instants and ~18 000 accepted / rejected variants per run.
+   ns_dom t: local time within years 0000..9999, zone offset a whole number of minutes, below 25 hours. *)
+From BWValues Require Import TimeCodec TimeCodecProofs.
+
+Theorem C05_rfc3339nano_roundtrip : forall t, ns_dom t -> parse_rfc3339nano (fmt_rfc3339nano t) = Some t.
+Proof. exact parse_fmt_rfc3339nano. Qed.
+Print Assumptions C05_rfc3339nano_roundtrip.
+
+Theorem C05_rfc3339nano_injective : forall a b, ns_dom a -> ns_dom b -> fmt_rfc3339nano a = fmt_rfc3339nano b -> a = b.
+Proof. exact fmt_injective. Qed.
+Print Assumptions C05_rfc3339nano_injective.
+
+(* the output is not empty and uses only 0-9 T : . Z + -  (for EVERY instant and offset) *)
+Theorem C05_rfc3339nano_alphabet : forall t,
+  fmt_rfc3339nano t <> [] /\ forall x, In x (fmt_rfc3339nano t) -> In x time_alphabet.
+Proof. intros t. split; [apply fmt_nonempty | exact (fmt_alphabet t)]. Qed.
+Print Assumptions C05_rfc3339nano_alphabet.
+
+(* whatever Parse returns with a zone below 25 hours is in that domain (so it prints and parses back) *)
+Theorem C05_rfc3339nano_parse_range : forall s t, parse_rfc3339nano s = Some t ->
+  (t_off t mod 60 = 0)%Z /\ (-90000 <= t_off t <= 90000)%Z /\ ((-90000 < t_off t < 90000)%Z -> ns_dom t).
+Proof.
+  intros s t H. destruct (parse_off_bound s t H) as [H1 H2]. split; [exact H1|]. split; [exact H2|]. exact (parse_in_dom s t H).
+Qed.
+Print Assumptions C05_rfc3339nano_parse_range.
+
+(* instantiated: the predicate round trip with NO hypothesis about time (quote laws proved for quote_g as before) *)
+Theorem C05_time_laws_proved : oracle_laws go_time_library /\ accept_laws go_time_library.
+Proof. split; [exact go_time_library_laws | exact go_time_library_accept_laws]. Qed.
+Print Assumptions C05_time_laws_proved.
+
+Theorem C05_predicate_roundtrip_go_time : forall p, dom_pred p = true ->
+  parse_pred go_time_library (print_pred go_time_library p) = Ok p.
+Proof. exact (pred_roundtrip go_time_library go_time_library_laws). Qed.
+Print Assumptions C05_predicate_roundtrip_go_time.
+
+Example C05_go_time_example :
+  print_pred go_time_library (mkPred (lit "p") (Some (mkTime 951782400500000000 20700))) = lit """p""@[2000-02-29T05:45:00.5+05:45]".
+Proof. vm_compute. reflexivity. Qed.
